@@ -169,6 +169,15 @@ def run(rep, tier):
            and lits.get("asm_parser::register") == ["r"] and {"char", "digit"} <= set(lits["asm_parser::register:comb"]),
            "token literals and digit classes", expected={"integer": ["-+", "0x", "hex_digit", "digit"], "register": ["r", "digit"]}, found=lits)
 
+    # R13.h the operand grammar must give input back when a register turns out to be a mnemonic
+    rh = rep.rule("R13.h", "an instruction without operands can be followed by a mnemonic that starts like a register: the register alternative of `operand` must backtrack (combine commits once input is consumed)", floor=1)
+    okh, foundh = asmmodel.register_vs_mnemonic(F, tab)
+    conflict, noop = foundh["mnemonics starting with r"], foundh["operand-less mnemonics"]
+    rep.ob(rh, "register-vs-mnemonic", okh,
+           "`%s` followed by `%s ...`: after the operand-less instruction the parser tries `operand`, `register` consumes the `r` and fails on the next letter" % ((noop or ["?"])[0], (conflict or ["?"])[0]),
+           expected="attempt(register()) in operand (or in register itself), or no mnemonic starting with `r`, or no operand-less mnemonic",
+           found=foundh)
+
     rf = rep.rule("R13.f", "assemble produces no bytes on error", floor=1)
     evo = symex.Evaluator(F, opaque_calls=lambda p: p.startswith("asm_parser::") or p in ai)
     outs = evo.run_fn("assembler::assemble", [("obj", "SRC", "&str")]) or []
